@@ -172,31 +172,9 @@ func (j *JWT) Verify(issuerURL, clientID string) error {
 		}
 	}
 
-	// Implement replay protection by checking the jti (JWT ID)
-	if jti, ok := claims["jti"].(string); ok {
-		// Skip replay detection for tokens that are being verified from the cache
-		if j.Token == "" {
-			// This is a parsed JWT without the original token string,
-			// which means it's likely from a cached token verification
-			return nil
-		}
-
-		replayCacheMu.Lock()
-		cleanupReplayCache()
-		if _, exists := replayCache[jti]; exists {
-			replayCacheMu.Unlock()
-			return fmt.Errorf("token replay detected")
-		}
-		expFloat, ok := claims["exp"].(float64)
-		var expTime time.Time
-		if ok {
-			expTime = time.Unix(int64(expFloat), 0)
-		} else {
-			expTime = time.Now().Add(10 * time.Minute)
-		}
-		replayCache[jti] = expTime
-		replayCacheMu.Unlock()
-	}
+	// Replay of a jti is detected in VerifyToken (first presentation of a token);
+	// Verify itself is also used to re-check the token stored in an established
+	// session on every request and therefore must be repeatable.
 
 	sub, ok := claims["sub"].(string)
 	if !ok || sub == "" {
